@@ -82,6 +82,8 @@ def gen_op(w, rng, focus):
                 "via_fit": rng.random() < 0.2}
     r -= wpp
     if r < wfit:
+        if rng.random() < 0.06:
+            return {"op": "emod"}
         kw = {}
         for key, dom in (("model_key", ["hertz_para", "hertz_para", "hertz_cone"]),
                          ("range_type", ["absolute", "relative cp", "absolute", "bogus"]),
@@ -181,6 +183,24 @@ def exec_op(ctx, w, op, rng, check_fresh):
         op["fn"](w)
         w.last_mut = None
         w.history.append(op["desc"])
+        return None, None
+    if op["op"] == "emod":
+        # compute_emodulus_mindelta(): the E(delta) scan is cached with the fit results; it is not part of
+        # the Lean alphabet (no model line) - the fresh-object oracle compares the visible scan arrays
+        with warnings.catch_warnings():
+            warnings.simplefilter("ignore")
+            try:
+                e_, d_ = idnt.compute_emodulus_mindelta()
+                out_ = f"{len(e_)} samples"
+            except BaseException as e:  # noqa
+                out_ = "err " + type(e).__name__
+        w.last_mut = None
+        w.history.append(f"compute_emodulus_mindelta() -> {out_}")
+        if check_fresh:
+            for sig, what in w.fresh_oracle():
+                direct = any(h.startswith("set preprocessing") for h in w.history)
+                ctx.violation(DIRECT_EDIT_SIG if direct else sig, what + " (after compute_emodulus_mindelta())",
+                              {"history": list(w.history), "curve": w.cid})
         return None, None
     attr_call = False
     if op["op"] == "pp" and op["steps"] == "ATTR":
@@ -289,12 +309,15 @@ def exec_op(ctx, w, op, rng, check_fresh):
             direct = any(h.startswith("set preprocessing") for h in w.history)
             ctx.violation(DIRECT_EDIT_SIG if direct and sig in ("columns-differ-from-fresh", "hash-differs-from-fresh",
                                                                  "results-differ-from-fresh",
-                                                                 "fit-columns-differ-from-fresh") else sig,
+                                                                 "fit-columns-differ-from-fresh",
+                                                                 "scan-differs-from-fresh") else sig,
                           what + f" (after {desc})", {"history": list(w.history), "curve": w.cid})
     return line, obs
 
 
 def describe(op):
+    if op["op"] == "emod":
+        return "compute_emodulus_mindelta()"
     if op["op"] == "pp":
         return f"{'fit_model(preprocessing=' if op.get('via_fit') else 'apply_preprocessing('}{op['steps']}, " \
                f"{op['opts']}{', ret_details=True' if op.get('rd') and not op.get('via_fit') else ''})"
@@ -410,6 +433,9 @@ def scenarios():
 
     def fitobj(w):
         return {"op": "fit", "kw": {"params_initial": w.obj["params"], "model_key": "hertz_para"}}
+    def fitbrute(w):
+        return {"op": "fit", "kw": {"params_initial": w.obj["params"], "model_key": "hertz_para", "method": "brute",
+                                    "weight_cp": 0}}
     plateau = {"op": "fit", "kw": {"optimal_fit_edelta": True, "optimal_fit_num_samples": 7,
                                    "range_x": [-8e-7, 4e-7], "range_type": "absolute"}}
     return [
@@ -419,6 +445,10 @@ def scenarios():
          [pp1, setp("E", "value", 2000.0), fitobj, setp("E", "min", 1000.0), fitobj]),
         ("only the upper limit edited (limit stays inactive)",
          [pp1, fitobj, setp("E", "max", 1e6), fitobj]),
+        ("grid search: only the grid step (brute_step) of a parameter edited in place",
+         [pp1, setp("E", "min", 0.0), setp("E", "max", 20000.0), setp("E", "brute_step", 6000.0),
+          setp("contact_point", "vary", False), setp("baseline", "vary", False), fitbrute,
+          setp("E", "brute_step", 250.0), fitbrute]),
         ("an interval bound changes by a few nanometres",
          [pp1, {"op": "fit", "kw": {"range_x": [-8e-7, 4e-7], "range_type": "absolute"}},
           {"op": "fit", "kw": {"range_x": [-8.08e-7, 4e-7]}}, {"op": "fit", "kw": {"range_x": [-8.08e-7, 4.07e-7]}}]),
@@ -434,6 +464,15 @@ def scenarios():
          [pp1, plateau, {"op": "set", "key": "range_x", "value": [6e-7, 4e-7]}, {"op": "fit", "kw": {}}]),
         ("plateau search, then only range_x[0] changes (ordinary interval)",
          [pp1, plateau, {"op": "fit", "kw": {"range_x": [-1.2e-6, 4e-7]}}]),
+        ("E(delta) scan, then only the number of scan samples changes (plateau search off)",
+         [pp1, {"op": "fit", "kw": {"range_type": "absolute", "optimal_fit_num_samples": 9}}, {"op": "emod"},
+          {"op": "fit", "kw": {"optimal_fit_num_samples": 7}}, {"op": "emod"}]),
+        ("E(delta) scan, then the number of scan samples is set directly",
+         [pp1, {"op": "fit", "kw": {"range_type": "absolute", "optimal_fit_num_samples": 9}}, {"op": "emod"},
+          {"op": "set", "key": "optimal_fit_num_samples", "value": 6}, {"op": "emod"}]),
+        ("E(delta) scan without a fit, then the weighting width changes",
+         [pp1, {"op": "set", "key": "optimal_fit_num_samples", "value": 6}, {"op": "emod"},
+          {"op": "set", "key": "weight_cp", "value": 1e-6}, {"op": "emod"}]),
         ("plateau search, then range_x[1] changes",
          [pp1, plateau, {"op": "fit", "kw": {"range_x": [-8e-7, 2e-7]}}]),
     ]
